@@ -23,7 +23,7 @@ def pts_to_ts(v: int) -> float:
 
 def ts_to_pts(ts: float) -> int:
     """Floating point seconds to PTS"""
-    pts = int(ts * 90e3)
+    pts = int(round(ts * 90e3))
     v = 0x2100010001  # I have no idea where the 2 comes from at the msb
     v |= (pts & 0x7FFF) << 1  # // bottom 15 bits
     v |= ((pts >> 15) & 0x7FFF) << 17  # // middle 15 bits
